@@ -42,10 +42,11 @@ import (
 )
 
 type Work struct {
-	Stmts   []int `json:"stmts"`   // template indices, in order
-	Envs    int   `json:"envs"`    // concurrent executions
-	Reruns  int   `json:"reruns"`  // sequential re-runs of the shared tree
-	ErrTail bool  `json:"errtail"` // program ends with a runtime error
+	Stmts   []int `json:"stmts"`              // template indices, in order
+	Envs    int   `json:"envs"`               // concurrent executions
+	Reruns  int   `json:"reruns"`             // sequential re-runs of the shared tree
+	ErrTail bool  `json:"errtail"`            // program ends with a runtime error
+	OptMode int   `json:"opt_mode,omitempty"` // vm.Options: 0 a fresh value per execution, 1 nil, 2 one value shared by all executions (as hosts do)
 }
 
 var templates = []func(u string) string{
@@ -181,6 +182,7 @@ func (Prop) Gen(seed int64, tier string) *harness.Case {
 	}
 	w.Reruns = 1 + r.Intn(3)
 	w.ErrTail = r.Intn(5) == 0
+	w.OptMode = r.Intn(3)
 	wb, _ := json.Marshal(w)
 	density := []int{2, 10, 30, 60}[r.Intn(4)]
 	return &harness.Case{Prop: "C14", Seed: seed, Tier: tier, Workload: wb,
@@ -347,7 +349,19 @@ func bindings(e *env.Env) string {
 	return strings.Join(parts, ";")
 }
 
-func execute(stmt ast.Stmt, i int, ctx context.Context) *runOut {
+var sharedOptions = &vm.Options{Debug: false}
+
+func optionsFor(mode int) *vm.Options {
+	switch mode {
+	case 1:
+		return nil
+	case 2:
+		return sharedOptions
+	}
+	return &vm.Options{Debug: false}
+}
+
+func execute(stmt ast.Stmt, i int, ctx context.Context, optMode ...int) *runOut {
 	out := &runOut{}
 	var mu sync.Mutex
 	e := mkEnv(i, out, &mu)
@@ -357,7 +371,11 @@ func execute(stmt ast.Stmt, i int, ctx context.Context) *runOut {
 				out.paniced = fmt.Sprint(x)
 			}
 		}()
-		v, err := vm.RunContext(ctx, e, &vm.Options{Debug: false}, stmt)
+		mode := 0
+		if len(optMode) > 0 {
+			mode = optMode[0]
+		}
+		v, err := vm.RunContext(ctx, e, optionsFor(mode), stmt)
 		out.val = render(v)
 		if err != nil {
 			out.err = err.Error()
@@ -506,7 +524,7 @@ func (Prop) Run(t *testing.T, c *harness.Case, verbose bool) *harness.Result {
 	solo := make([]*runOut, w.Envs)
 	for i := 0; i < w.Envs; i++ {
 		st, _ := parser.ParseSrc(src)
-		solo[i] = execute(st, i, context.Background())
+		solo[i] = execute(st, i, context.Background(), w.OptMode)
 		if solo[i].paniced != "" {
 			return fail("panic", "solo run panicked: "+solo[i].paniced)
 		}
@@ -528,7 +546,7 @@ func (Prop) Run(t *testing.T, c *harness.Case, verbose bool) *harness.Result {
 	}
 	// sequential re-runs of the shared tree
 	for k := 0; k < w.Reruns; k++ {
-		o := execute(shared, 0, context.Background())
+		o := execute(shared, 0, context.Background(), w.OptMode)
 		if d := o.diff(solo[0]); d != "" {
 			return fail("rerun-differs", fmt.Sprintf("sequential run #%d of the shared tree differs from the solo run: %s", k+1, d))
 		}
@@ -545,7 +563,7 @@ func (Prop) Run(t *testing.T, c *harness.Case, verbose bool) *harness.Result {
 		ctx := sim.NewCtx()
 		for i := 0; i < w.Envs; i++ {
 			i := i
-			sim.Spawn(fmt.Sprintf("c%d", i), func() { outs[i] = execute(shared, i, ctx) })
+			sim.Spawn(fmt.Sprintf("c%d", i), func() { outs[i] = execute(shared, i, ctx, w.OptMode) })
 		}
 		res.Outcome = sim.Run()
 		sim.Teardown(func() { ctx.Cancel() })
@@ -629,6 +647,12 @@ func RunReal(c *harness.Case) string {
 	if err != nil {
 		return ""
 	}
+	// sequential reference runs first (separately parsed tree), then the concurrent ones must equal them
+	solo := make([]*runOut, w.Envs)
+	for i := range solo {
+		st, _ := parser.ParseSrc(src)
+		solo[i] = execute(st, i, context.Background(), 0)
+	}
 	var wg sync.WaitGroup
 	start := make(chan struct{})
 	msgs := make([]string, w.Envs)
@@ -637,8 +661,22 @@ func RunReal(c *harness.Case) string {
 		go func(i int) {
 			defer wg.Done()
 			<-start
-			o := execute(shared, i, context.Background())
-			msgs[i] = o.paniced
+			mode := w.OptMode
+			if mode == 0 {
+				mode = 2 // on real goroutines always share: that is where a per-Options scratch area would race
+			}
+			for rep := 0; rep < 3; rep++ {
+				o := execute(shared, i, context.Background(), mode)
+				if o.paniced != "" {
+					msgs[i] = o.paniced
+				}
+				if o.cross != "" {
+					msgs[i] = o.cross
+				}
+				if d := o.diff(solo[i]); d != "" && solo[i].paniced == "" {
+					msgs[i] = fmt.Sprintf("concurrent execution %d on real goroutines differs from its sequential run: %s", i, d)
+				}
+			}
 		}(i)
 	}
 	close(start)
